@@ -152,6 +152,30 @@ def run(ctx):
                             bad.append(call_name(sub))
                 r2.check(not bad, f"{m.rel}:{q}:{call_name(c)}", f"schedule-dependent value(s) {bad} flow into a hashed call-graph quantity", m.rel, c.lineno)
 
+    # ---- C07.4 the child list hashed into the parent's call node is timing independent ----------------
+    r4 = ctx.rule("C07.4", "a parent's child-job list has one slot per child call whether the duplicate was collapsed or served from the cache", floor=3)
+    col = m.func("Job.collapse")
+    from ..cfg import CFG as _CFG
+
+    ccfg = _CFG(col)
+    repl = [n for n in ccfg.nodes if n.kind == "stmt" and isinstance(n.ast, ast.Assign) and isinstance(n.ast.targets[0], ast.Subscript) and src(n.ast.targets[0].value).endswith(".child_jobs") and ".index(self)" in src(n.ast.targets[0].slice) and src(n.ast.value) == col.args.args[1].arg]
+    ok = bool(repl) and ccfg.must_pass(ccfg.entry, repl)
+    r4.check(ok, f"{m.rel}:Job.collapse:slot-replaced", "collapsing a duplicate does not, on every path, replace the duplicate's slot in the parent's child list by the twin: the parent's child call hashes (hashed with multiplicity) then depend on whether the twin was still running or already cached", m.rel, col.lineno)
+    muts = []
+    for mod in repo.modules.values():
+        for n in ast.walk(mod.tree):
+            if isinstance(n, ast.Call) and isinstance(n.func, ast.Attribute) and n.func.attr in ("remove", "pop", "insert", "append", "extend", "clear", "sort", "reverse") and isinstance(n.func.value, ast.Attribute) and n.func.value.attr == "child_jobs":
+                muts.append((mod.rel, mod.enclosing_qual(n), n.func.attr, n.lineno))
+            if isinstance(n, ast.Delete) and any("child_jobs" in src(t) for t in n.targets):
+                muts.append((mod.rel, mod.enclosing_qual(n), "del", n.lineno))
+    allowed = {("redun/scheduler.py", "Job.add_parent", "append"), ("redun/scheduler.py", "Job.clear", "clear")}
+    for rel, q, op, line in muts:
+        r4.check((rel, q, op) in allowed, f"{rel}:{q}:child_jobs.{op}", f"child_jobs is mutated by {op} in {q}: only append on creation and clear after finalisation keep the child list independent of completion order", rel, line)
+    for q in ("Scheduler._resolve_job_main_thread",):
+        fn = m.func(q)
+        ok = any(isinstance(n, ast.ListComp) and "child_jobs" in src(n.generators[0].iter) and not any(call_name(c) in ("set", "sorted", "dict.fromkeys") for c in calls_in(n)) for n in ast.walk(fn))
+        r4.check(ok, f"{m.rel}:{q}:children-with-multiplicity", "child call hashes are not taken from the child list in order and with multiplicity", m.rel, fn.lineno)
+
     # ---- C07.3 ---------------------------------------------------------------------
     r3 = ctx.rule("C07.3", "uuid/time reach only ids and timestamps; child hashes are sorted before hashing", floor=3)
     hm = repo.mod("redun/hashing.py")
